@@ -172,7 +172,8 @@ def parse_out_param(expr, require_default=False, emit_default_doc=True):
             # else:
             default = simple_types[typ] if typ in simple_types else NoneStr
 
-        elif require_default or typ.startswith("Optional"):
+        elif require_default or not required:
+            # An option that is not required has argparse's own default, None (`typ` is only wrapped in Optional below)
             default = NoneStr
 
     # nargs = next(
